@@ -27,20 +27,18 @@ def scan_mux(accumulator, seed, reduce, terminator):
                     i.store.add_key(state, i.key)
                     observer.on_next(i)
                 elif type(i) is rs.OnCompletedMux:
-                    if terminator:
+                    if terminator or reduce is True:
                         value = i.store.get_state(state, i.key)
                         if value is rs.state.markers.STATE_NOTSET:
                             value = seed() if callable(seed) else copy.deepcopy(seed)
-                        acc = terminator(value)
-                        i.store.set_state(state, i.key, acc)
-                        if reduce is False:
-                            observer.on_next(rs.OnNextMux(i.key, acc, i.store))
-
-                    if reduce is True:
-                        value = i.store.get_state(state, i.key)
-                        if value is rs.state.markers.STATE_NOTSET:
-                            value = seed() if callable(seed) else copy.deepcopy(seed)
-                        observer.on_next(rs.OnNextMux(i.key, value, i.store))
+                        if terminator:
+                            # the result of the terminator is emitted as is: it is
+                            # not an accumulator value and may be of another type
+                            value = terminator(value)
+                        if terminator and reduce is False:
+                            observer.on_next(rs.OnNextMux(i.key, value, i.store))
+                        if reduce is True:
+                            observer.on_next(rs.OnNextMux(i.key, value, i.store))
 
                     observer.on_next(i)
                     i.store.del_key(state, i.key)
